@@ -78,6 +78,13 @@ def run(ctx):
                 if not same:
                     rep.fail("C18.builders", "%s|lib-vs-bin|%s" % (cfg, k), "the library and binary copies of the cert module differ")
         rep.ob("C18.builders", "%s|lib-vs-bin" % cfg, n >= 20, "library and binary compile the same cert module (%d functions compared)" % n)
+        # "without panicking": the tool renders rcgen's errors and calls rcgen's constructors, so the library's own panic
+        # audit (as compiled for the tool) is part of the claim
+        n_lib = [0]
+        def _lib():
+            n_lib[0] = c10.audit(cfg, ctx.crate(cfg), "rcgen", rep)
+        common.borrow_rules(rep, _lib, "C10.", "C18.lib")
+        rep.floor("C18.lib", "library panic sites enumerated (%s)" % cfg, n_lib[0], 20)
         # panic audit of the CLI
         for cname, cr in (("rustls_cert_gen", crate), ("rustls_cert_gen", lib)):
             sites = c10.sites(cr)
